@@ -285,6 +285,22 @@ class Fn:
                 out_env[d['name']] = v
             return pre + cont(out_env)
         if kind == 'ReturnStmt':
+            if 'inner' in s and getattr(self, 'ret_index', False):
+                # `return table_[idx];` with table_ a pointer member of this: the function is translated to the index it uses
+                r = s['inner'][0]
+                while r['kind'] in ('ImplicitCastExpr', 'ParenExpr'):
+                    r = r['inner'][0]
+                if r['kind'] != 'ArraySubscriptExpr':
+                    raise Unsupported('ret_index: return is not a table read')
+                base, idx = r['inner']
+                b = base
+                while b['kind'] in ('ImplicitCastExpr', 'ParenExpr'):
+                    b = b['inner'][0]
+                if not (b['kind'] == 'MemberExpr' and self._is_this(b['inner'][0])):
+                    raise Unsupported('ret_index: table is not a member')
+                if self.ret_table is not None and b['name'] != self.ret_table:
+                    raise Unsupported(f'ret_index: reads table {b["name"]}, expected {self.ret_table}')
+                return self.finish(self.expr(idx, env), env)
             if 'inner' in s:
                 return self.finish(self.expr(s['inner'][0], env), env)
             return self.finish(None, env)
@@ -505,6 +521,8 @@ class Translator:
                     v = v['inner'][0]
                 if v['kind'] == 'IntegerLiteral':
                     self.static_consts[c['name']] = v['value']
+                elif v['kind'] == 'UnaryOperator' and v.get('opcode') == '-' and v['inner'][0]['kind'] == 'IntegerLiteral':
+                    self.static_consts[c['name']] = '(-' + v['inner'][0]['value'] + ')'
         return out
 
     def record(self, cls, fields):
@@ -567,16 +585,23 @@ def main():
         ('SplitStrategyBySeq', lambda: do_class('SplitStrategyBySeq', D + 'split_strategy.hpp', ['newPacket', 'maxSeq'])),
         ('AzimuthSection', lambda: do_class('AzimuthSection', D + 'section.hpp', ['in'], pure_static=['_round'])),
         ('ChanAngles', lambda: do_class_static('ChanAngles', D + 'chan_angles.hpp', ['angleCheck'])),
+        ('Trigon', lambda: do_class_static('Trigon', D + 'trigon.hpp', ['sin', 'cos'], ret_tables={'sin': 'sins_', 'cos': 'coss_'})),
         ('parseTempInLe', lambda: do_function('parseTempInLe', D + 'basic_attr.hpp')),
         ('parseTempInBe', lambda: do_function('parseTempInBe', D + 'basic_attr.hpp')),
     ]
 
-    def do_class_static(cls, inc, names):
-        tr.find_class(cls, [inc])
-        parts.append(f'(* ---- class {cls} (static members) ---- *)\n')
+    def do_class_static(cls, inc, names, ret_tables=None):
+        d = tr.find_class(cls, [inc])
+        tr.class_fields(d)
+        parts.append(f'(* ---- class {cls} ({"table index of" if ret_tables else "static members"}) ---- *)\n')
         for name in names:
             m = tr.find_method(cls, name)
+            if m is None:
+                raise Unsupported(f'{cls}::{name} not found')
             f = Fn(tr, cls, m, [], False)
+            if ret_tables:
+                f.ret_index = True
+                f.ret_table = ret_tables[name]
             parts.append(f.translate(pure=True))
 
     failed = []
